@@ -116,6 +116,69 @@ def run(ctx):
     ctx.suite("random_circuits", cases=len(rcases))
     for i in range(0, len(rcases), 2000):
         check_cases(ctx, "random_circuits", rcases[i:i + 2000])
+    run_history(ctx)
+
+
+def run_history(ctx):
+    """graphs of circuits that went through earlier passes (map incl. the identity mapping, decompose, merge), with a
+    user-defined named matrix gate among the statements"""
+    from opensquirrel.ir import MatrixGate, QubitLike, named_gate
+    from opensquirrel.mapper import HardcodedMapper, IdentityMapper
+    from opensquirrel.mapper.mapping import Mapping
+
+    from harness import implrun
+
+    @named_gate
+    def uswap(a: QubitLike, b: QubitLike) -> MatrixGate:
+        return MatrixGate([[1, 0, 0, 0], [0, 0, 1, 0], [0, 1, 0, 0], [0, 0, 0, 1]], [a, b])
+
+    rng = ctx.rng
+    n_cases = 0
+    for _ in range(ctx.pick(80, 800)):
+        nq = rng.randint(2, 6)
+        specs = [s for s in gen.rand_circuit_spec(rng, nq, 1, rng.randint(1, 8), max_ctrl=1, allow_mat=True) if len(gen.spec_qubits(s)) <= 2]
+        c = gen.build_circuit(nq, 1, specs)
+        extra = []
+        for _ in range(rng.randint(0, 2)):
+            a, b = gen.rand_qubits(rng, nq, 2)
+            c.ir.statements.insert(rng.randint(0, len(c.ir.statements)), uswap(a, b))
+            extra.append((a, b))
+        perm = list(range(nq))
+        rng.shuffle(perm)
+        hist = rng.choice([["identity_map"], ["map"], ["map", "map"], ["decompose", "map"], ["merge", "map"], ["map", "decompose"]])
+        case = {"nq": nq, "nb": 1, "specs": specs, "user_swaps": extra, "history": hist, "perm": perm}
+        n_cases += 1
+        ctx.seen(case)
+        f = {q: q for q in range(nq)}
+        try:
+            for h in hist:
+                if h == "identity_map":
+                    c.map(IdentityMapper(nq))
+                elif h == "map":
+                    c.map(HardcodedMapper(nq, Mapping(perm)))
+                    f = {q: perm[f[q]] for q in f}
+                elif h == "decompose":
+                    implrun.apply_pass(c, ["decompose", "zyz"])
+                else:
+                    implrun.apply_pass(c, ["merge"])
+        except Exception:  # noqa: BLE001
+            continue
+        im = impl_graph(c)
+        want = set()
+        for sp in specs:
+            if gen.is_gate_spec(sp) and len(gen.spec_qubits(sp)) == 2:
+                a, b = gen.spec_qubits(sp)
+                want.add(tuple(sorted((f[a], f[b]))))
+        for a, b in extra:
+            want.add(tuple(sorted((f[a], f[b]))))
+        orc = ["ok", sorted({q for e in want for q in e}), sorted(list(e) for e in want)]
+        (_, mr), = model.call_many([["graph", ser.ser_stmts(c.ir.statements)]])
+        mo = norm_model(mr)
+        if mo != im:
+            ctx.disagree("history", case, f"impl={im} model={mo}")
+        if im != orc:
+            ctx.oracle_fail("history", case, f"after {hist}: impl={im} expected={orc}", mo == im)
+    ctx.suite("history", cases=n_cases)
 
 
 def replay(ctx, payload):
